@@ -9,7 +9,7 @@ documented hook methods).
 import signal
 import sys
 
-from anytree import AnyNode, LightNodeMixin, Node, NodeMixin, SymlinkNode, SymlinkNodeMixin
+from anytree import AnyNode, LightNodeMixin, Node, NodeMixin, SymlinkNode, SymlinkNodeMixin, TreeError
 
 ACTIVE = [None]  # the world that receives hook calls right now
 
@@ -36,7 +36,31 @@ class SimCancel(BaseException):
     """Injected cancellation: not an Exception, so `except Exception` does not see it."""
 
 
-EXC = {"SimFault": SimFault, "SimRuntime": SimRuntime, "SimCancel": SimCancel}
+class SimAssert(AssertionError):
+    """A user hook vetoing with `assert` (as the hooks in anytree's own tests do)."""
+
+
+class SimLookup(KeyError):
+    """Injected failure, LookupError flavoured."""
+
+
+class SimStop(StopIteration):
+    """Injected failure: a StopIteration escaping from user code."""
+
+
+class SimTreeError(TreeError):
+    """A validating class refusing with the library's own exception type."""
+
+
+EXC = {
+    "SimFault": SimFault,
+    "SimRuntime": SimRuntime,
+    "SimCancel": SimCancel,
+    "SimAssert": SimAssert,
+    "SimLookup": SimLookup,
+    "SimStop": SimStop,
+    "SimTreeError": SimTreeError,
+}
 
 
 class Watchdog(BaseException):
@@ -473,6 +497,22 @@ class World(object):
         return tuple((index(n.parent), tuple(index(c) for c in n.children)) for n in self.nodes)
 
 
+_TRUE_DEPTH = {}
+
+
+def _measure_depth():
+    """Interpreter recursion depth at the caller (probe: recurse until RecursionError)."""
+    limit = sys.getrecursionlimit()
+
+    def rec(n):
+        try:
+            return rec(n + 1)
+        except RecursionError:
+            return n
+
+    return limit - rec(0) - 1
+
+
 class OpGuard(object):
     """Watchdog + fixed recursion limit around one library call.
 
@@ -481,10 +521,15 @@ class OpGuard(object):
     depth at which unbounded recursion ends in RecursionError is the same in
     search, shrink and replay."""
 
+    # Python-frame budget of one library call.  Kept well below the default of 1000 so that it, and not
+    # the interpreter's C-level recursion budget (which depends on how the calling process was entered and
+    # cannot be pinned), decides where unbounded recursion ends: that keeps such runs replayable.
     LIMIT = 300
 
-    def __init__(self, seconds=1.5):
+    def __init__(self, seconds=1.5, limit=None):
         self.seconds = seconds
+        if limit:
+            self.LIMIT = limit
 
     def _alarm(self, signum, frame):
         raise Watchdog("library call exceeded %.1fs" % self.seconds)
@@ -498,7 +543,15 @@ class OpGuard(object):
         while f is not None:
             depth += 1
             f = f.f_back
-        sys.setrecursionlimit(depth + self.LIMIT)
+        # the interpreter's own depth counter is not the number of visible frames (calls entered
+        # from C code count differently), and it differs between a pool worker and a stand-alone
+        # replay: measure it once per calling context, so that the stack budget of the library
+        # call - and with it the exact point where unbounded recursion ends in RecursionError -
+        # is the same in search, shrink and replay
+        true = _TRUE_DEPTH.get(depth)
+        if true is None:
+            true = _TRUE_DEPTH[depth] = _measure_depth()
+        sys.setrecursionlimit(true + self.LIMIT)
         return self
 
     def __exit__(self, *exc):
